@@ -612,18 +612,21 @@ func (s *LogfmtStage) Text() string {
 
 // ParseLogfmt is a reference logfmt reader for the alphabet: space separated key=value, bare keys,
 // double-quoted values with Go escapes. ok=false for malformed input (unterminated quote, stray quote).
+// lfSep: pairs are separated by blanks, tabs and line breaks (a record may span several physical lines).
+func lfSep(c byte) bool { return c == ' ' || c == '\t' || c == '\n' }
+
 func ParseLogfmt(line string) (kvs [][2]string, ok bool) {
 	i := 0
 	n := len(line)
 	for i < n {
-		for i < n && line[i] == ' ' {
+		for i < n && lfSep(line[i]) {
 			i++
 		}
 		if i >= n {
 			break
 		}
 		j := i
-		for j < n && line[j] != '=' && line[j] != ' ' {
+		for j < n && line[j] != '=' && !lfSep(line[j]) {
 			if line[j] == '"' || line[j] < 0x20 {
 				return kvs, false
 			}
@@ -633,7 +636,7 @@ func ParseLogfmt(line string) (kvs [][2]string, ok bool) {
 		if key == "" {
 			return kvs, false
 		}
-		if j >= n || line[j] == ' ' {
+		if j >= n || lfSep(line[j]) {
 			kvs = append(kvs, [2]string{key, ""})
 			i = j
 			continue
@@ -656,13 +659,13 @@ func ParseLogfmt(line string) (kvs [][2]string, ok bool) {
 			}
 			kvs = append(kvs, [2]string{key, v})
 			i = k + 1
-			if i < n && line[i] != ' ' {
+			if i < n && !lfSep(line[i]) {
 				return kvs, false
 			}
 			continue
 		}
 		k := j
-		for k < n && line[k] != ' ' {
+		for k < n && !lfSep(line[k]) {
 			if line[k] == '"' || line[k] == '=' {
 				return kvs, false
 			}
